@@ -712,16 +712,20 @@ def oracle(case, out):
         if is_abnormal(out):
             return "%s ended with %s" % (op, out)
         if op in ("lump", "rownorm2", "rownorm2sqr", "rownorm2sqr_s"):
+            if op == "rownorm2sqr_s" and len(c.s) != nc:
+                return "generator: scal has the wrong size"
+            byrow = {}
+            for (i, j), v in A.dense.items():      # entries that are not stored are zero: they do not contribute
+                byrow.setdefault(i, []).append((j, v))
             exp = []
             for i in range(nr):
+                ent = byrow.get(i, ())
                 if op == "lump":
-                    exp.append(sum((A.get(i, j) for j in range(nc)), Fraction(0)))
+                    exp.append(sum((v for _, v in ent), Fraction(0)))
                 elif op == "rownorm2sqr_s":
-                    if len(c.s) != nc:
-                        return "generator: scal has the wrong size"
-                    exp.append(sum((c.s[j] * A.get(i, j) ** 2 for j in range(nc)), Fraction(0)))
+                    exp.append(sum((c.s[j] * v ** 2 for j, v in ent), Fraction(0)))
                 else:
-                    s = sum((A.get(i, j) ** 2 for j in range(nc)), Fraction(0))
+                    s = sum((v ** 2 for _, v in ent), Fraction(0))
                     exp.append(qsqrt(s) if op == "rownorm2" else s)
             r = expect_vec(out, exp, op)
             return r if isinstance(r, str) else None
@@ -827,6 +831,106 @@ def describe(case):
 
 def canon(out):
     return "ABORT" if out.startswith("ABORT") else out
+
+
+# ---------------------------------------------------------------------------------------------
+# boundary sizes: Index / IT_ are unbounded Nat in the Lean model, only this stream crosses the C++ size boundaries
+# ---------------------------------------------------------------------------------------------
+
+BOUNDARY_QUICK = [3, 4, 5, 127, 128, 129, 255, 256, 257, 1000, 1001]
+BOUNDARY_THOROUGH = [32767, 32768, 65535, 65536, 65537]
+
+
+def boundary_cases(rng, tier):
+    """Sizes / row lengths / column indices / storage positions just below, at and above 2^7, 2^8, 1000, 2^15, 2^16
+    (and n mod 4 in {3, 0, 1}: MemoryPool rounds allocations up to multiples of 4).  Sparse data; the content that
+    steers the special paths (extreme values and their ties, the diagonal entries, the missing column of a product, the
+    entries shrink drops) sits at the HIGH end: last rows, highest column indices, last storage positions."""
+    out = []
+    for N in BOUNDARY_QUICK + (BOUNDARY_THOROUGH if tier == "thorough" else []):
+        big = N > 2000
+        it = 32 if (big or N % 2) else 64
+
+        def v():
+            return Fraction(rng.randint(1, 9) * rng.choice([1, -1]), rng.choice([1, 2, 3]))
+        # ---- (a) one row with N entries (> 255 entries per row), ending in the last column N+1
+        cols = N + 2
+        pat = [[0, cols - 1], list(range(2, N + 2))]
+        r1 = [v() for _ in range(N)]
+        if N >= 8:
+            r1[N - 6] = Fraction(1, 11); r1[N - 5] = Fraction(-1, 11)       # min-abs tie: first occurrence wins
+            r1[N - 4] = Fraction(40); r1[N - 3] = Fraction(40)             # max tie
+            r1[N - 2] = Fraction(-41); r1[N - 1] = Fraction(-41)           # min / max-abs tie at the very end
+        W = Mat(2, cols, pat, [[Fraction(3), Fraction(-2)], r1])
+        W2 = same_layout(rng, W)
+        ops = ["lump", "max", "minabs", "shrink", "rownorm2sqr"] if big else \
+            ["lump", "rownorm2sqr", "rownorm2", "rownorm2sqr_s", "max", "min", "maxabs", "minabs", "frob", "shrink",
+             "scale_cols", "scale_rows", "axpy", "scale"]
+        head = "csr %d " % it
+        for op in ops:
+            if op == "shrink":
+                out.append(head + "shrink %s %s" % (W.tok(), fs(Fraction(41))))      # keeps only the last two entries
+                out.append(head + "shrink %s %s" % (W.tok(), fs(Fraction(1, 10))))   # drops only N-6, N-5
+            elif op == "rownorm2sqr_s":
+                out.append(head + "rownorm2sqr_s %s %s" % (W.tok(), fl([Fraction(j % 5 - 2) for j in range(cols)])))
+            elif op == "scale_cols":
+                out.append(head + "scale_cols %s %s %s 0" % (W.tok(), W2.tok(), fl([Fraction(j % 7 - 3) for j in range(cols)])))
+            elif op == "scale_rows":
+                out.append(head + "scale_rows %s %s %s 1" % (W.tok(), W2.tok(), fl([Fraction(2), Fraction(-3)])))
+            elif op in ("axpy", "scale"):
+                out.append(head + "%s %s %s %s 0" % (op, W.tok(), W2.tok(), fs(Fraction(-3, 2))))
+            else:
+                out.append(head + "%s %s" % (op, W.tok()))
+        # ---- (b) n x n with n = N + 1 rows, entries only in row 0 and in the last six rows
+        n = N + 1
+        if n < 8:
+            continue
+        tp = [[] for _ in range(n)]
+        tp[0] = [0, n - 1]
+        tp[n - 6] = [n - 6]              # diagonal only
+        tp[n - 5] = [n - 4]              # upper only: no diagonal entry, an entry right of it
+        tp[n - 4] = [0, n - 4]           # diagonal last in the row
+        tp[n - 3] = [n - 5]              # lower only
+        tp[n - 2] = [n - 2, n - 1]       # diagonal first
+        tp[n - 1] = [0, n - 2, n - 1]    # diagonal at the last storage position
+        T = Mat(n, n, tp, [[v() for _ in r] for r in tp])
+        for op in (["diag", "lump"] if big else ["diag", "lump", "rownorm2sqr", "shrink"]):
+            out.append(head + ("shrink %s %s" % (T.tok(), fs(Fraction(2))) if op == "shrink" else "%s %s" % (op, T.tok())))
+        out.append(head + "scale_rows %s %s %s 1" % (T.tok(), T.tok(), fl([Fraction(i % 9 - 4) for i in range(n)])))
+        for bs in ((2,) if big else (2, 3)):
+            TB = Mat(n, n, tp, [[[v() for _ in range(bs * bs)] for _ in r] for r in tp], bs, bs, True)
+            out.append("bcsr %d %d %d diag %s" % (it, bs, bs, TB.tok()))
+            out.append("bcsr %d %d %d lump %s" % (it, bs, bs, TB.tok()))
+        # products: the rows D_i, B_k that matter are the last ones; X lacks either nothing, or the LAST column of its
+        # last row ("row of X exhausted"), or column 0 of row n-2 ("X > B")
+        dp = [[] for _ in range(n)]; dp[0] = [n - 1]; dp[n - 2] = [n - 1]; dp[n - 1] = [n - 2, n - 1]
+        bp = [[] for _ in range(n)]; bp[n - 2] = [n - 2, n - 1]; bp[n - 1] = [0, n - 1]
+        ap = [[] for _ in range(n)]; ap[n - 2] = [n - 2]; ap[n - 1] = [n - 2, n - 1]
+        xc = [[] for _ in range(n)]; xc[0] = [0, n - 1]; xc[n - 2] = [0, n - 2, n - 1]; xc[n - 1] = [0, n - 2, n - 1]
+        xr = [list(r) for r in xc]; xr[n - 1] = [0, n - 2]             # last column missing in the last row
+        xl = [list(r) for r in xc]; xl[n - 2] = [n - 2, n - 1]         # column 0 missing in row n-2
+
+        def m(p, bs=1, blocked=False):
+            return Mat(n, n, p, [[[v() for _ in range(bs * bs)] if blocked else v() for _ in r] for r in p], bs, bs, blocked)
+        for xp in (xc, xr, xl):
+            for allow in (0, 1):
+                out.append(head + "mm %s %s %s 2/1 %d" % (m(xp).tok(), m(dp).tok(), m(bp).tok(), allow))
+                if not big or xp is xr:
+                    out.append(head + "dmm %s %s %s %s 2/1 %d" % (m(xp).tok(), m(dp).tok(), m(ap).tok(), m(bp).tok(), allow))
+                    out.append(head + "dgm %s %s %s %s 2/1 %d" % (m(xp).tok(), m(dp).tok(), fl([Fraction(i % 5 + 1) for i in range(n)]),
+                                                                 m(bp).tok(), allow))
+                    out.append("bcsr %d 2 2 dmm_csr %s %s %s %s 2/1 %d" % (it, m(xp, 2, True).tok(), m(dp).tok(), m(ap, 2, True).tok(),
+                                                                          m(bp).tok(), allow))
+                if not big:
+                    out.append("bcsr %d 2 2 dmm %s %s %s %s 2/1 %d" % (it, m(xp, 2, True).tok(), m(dp, 2, True).tok(),
+                                                                      m(ap, 2, True).tok(), m(bp, 2, True).tok(), allow))
+    return out
+
+
+def boundary_describe(case):
+    t = case.split()
+    k = 5 if t[0] == "bcsr" else 3
+    return describe(case)[:2] + ["bsize:rows=%s" % t[k], "bsize:cols=%s" % t[k + 1]]
 
 
 # ---------------------------------------------------------------------------------------------
@@ -1027,8 +1131,13 @@ def main(argv):
     fst = vlib.Stream("fp-norms", fcases, [binary], None, oracle=fp_oracle,
                       describe=lambda case: ["op:csrd/" + case.split()[2]], signature=lambda c, o, w: "csrd:" + (w or "")[:30],
                       canon=canon)
-    rc = vlib.run_pipeline(PROP, args.tier, args.seed, lean, [st, est, fst], t0, assumptions=[
-        "Index modelled as unbounded Nat (no 32/64-bit overflow at the sizes generated)",
+    bcases = [] if args.replay else boundary_cases(random.Random(args.seed * 1000003 + 99), args.tier)
+    bst = vlib.Stream("boundary-sizes", bcases, [binary], vlib.driver_cmd(PROP), oracle=oracle, nontrivial=nontrivial,
+                      describe=boundary_describe, signature=signature, canon=canon, model_filter=model_filter)
+    rc = vlib.run_pipeline(PROP, args.tier, args.seed, lean, [st, est, fst, bst], t0, assumptions=[
+        "Index / IT_ (unsigned int or unsigned long) / int block sizes are unbounded Nat in the Lean model; the stream "
+        "boundary-sizes crosses 2^7, 2^8, 1000 (thorough: 2^15, 2^16) and n mod 4 for rows, row lengths, column indices "
+        "and storage positions, compared with model and oracle",
         "CSR/BCSR operands have strictly increasing column indices per row (as every FEAT assembly produces)",
         "square roots: the deterministic q_sqrt of exact_q.hpp / Proto.qsqrt (C03.qsqrt_floor); stream fp-norms runs "
         "norm_frobenius / row_norm2 at double and checks |r^2 - S| <= gamma_(n+3) S in exact arithmetic (evidence only)",
